@@ -5,7 +5,7 @@ CONSTANTS
   MaxOps = 40
   Window = 0
   BlockBudget = 1000
-  ActiveTxs = {"t1", "t2", "t3", "t4", "t5", "t6", "t7", "p1", "p2", "p3", "p4", "p5", "p6", "p7", "p8", "p9", "p10", "w1"}
+  ActiveTxs = {"t1", "t2", "t3", "t4", "t5", "t6", "t7", "t8", "p1", "p2", "p3", "p4", "p5", "p6", "p7", "p8", "p9", "p10", "w1"}
   KF_FrozenLedgerHeight = FALSE
   KF_PlayKeepsStaleReader = FALSE
   KF_PoolOrderAntiDep = FALSE
